@@ -108,7 +108,7 @@ def guard_retvals(fn, atom, pol):
 def fmt_facts(facts):
     if facts is None:
         return "<unreachable>"
-    return "{" + ", ".join(("" if p else "!") + a for a, p in sorted(facts)) + "}"
+    return "{" + ", ".join(("" if p else "!") + a for a, p in sorted(facts) if not a.startswith("@cond|")) + "}"
 
 
 def check_guarded_entry(ck, X, fn, rule, needed, what, effect_filter=None):
